@@ -52,8 +52,8 @@ def mc_configs(tier):
     return [
         ("target-T8", consts({"near", "cum"}, 9, {0, 1}, durs=(12,), incls=(False, True))),
         ("target-x012-T6", consts({"near", "cum"}, 7, {0, 1, 2}, durs=(0, 4, 8), incls=(False, True))),
-        ("scaled-T6", consts({"snear", "scum"}, 7, {0, 2}, durs=(8,), incls=(True,))),
-        ("scaled-N-T4", consts({"snear", "scum"}, 5, {0, 1, 2}, durs=(0, 8, 12), incls=(False,))),
+        ("scaled-T5", consts({"snear", "scum"}, 6, {0, 2}, durs=(8,), incls=(True,))),
+        ("scaled-N-T4", consts({"snear", "scum"}, 5, {0, 1, 2}, durs=(0, 8), incls=(False,), tols=(0,))),
         ("event-T8", consts({"ev_inf", "ev_nan", "ev_zero"}, 9, {0}, durs=(12,), incls=(False, True))),
         ("event-N-T6", consts({"ev_inf", "ev_nan", "ev_zero"}, 7, {0}, durs=(0, 4, 8), incls=(False, True))),
         ("stats-T7", consts({"pass", "ema", "ca"}, 8, {0, 1, 2}, durs=(8,), incls=(True,))),
@@ -150,6 +150,7 @@ def replay_class(chk, g, rk, durk, incl, P, inplace, rng, max_states, E=1, devia
             chk.nontrivial.add((rk, inplace, k, o))
         chk.extra["replayed_edges"] = chk.extra.get("replayed_edges", 0) + st.edges
         chk.extra["impl_states_visited"] = chk.extra.get("impl_states_visited", 0) + st.states
+        chk.traces += st.states      # TLC-generated behaviours (paths of the emitted graph) executed on the code
     return st, mism
 
 
@@ -360,12 +361,12 @@ def run(tier: str, seed: int) -> int:
                 ("gen-T5-target", consts({"near", "cum", "ev_zero"}, 6, {0, 1}, durs=(8,), incls=(False,), tols=(0,)), 25)]
         nparams = 2
     else:
-        gens = [("gen-target-T5", consts({"near", "cum"}, 5, {0, 1}, durs=(0, 8), incls=(True, False), tols=(0, 1)), 300),
-                ("gen-scaled-T3", consts({"snear", "scum"}, 3, {0, 1, 2}, durs=(0, 8), incls=(True, False), tols=(0, 1)), 300),
+        gens = [("gen-target-T5", consts({"near", "cum"}, 5, {0, 1}, durs=(0, 8), incls=(True, False), tols=(0, 1)), 150),
+                ("gen-scaled-T3", consts({"snear", "scum"}, 3, {0, 1, 2}, durs=(0, 8), incls=(True, False), tols=(0, 1)), 150),
                 ("gen-event-T5", consts({"ev_inf", "ev_nan", "ev_zero"}, 5, {0}, durs=(0, 8), incls=(True, False),
-                                        tols=(0, 1)), 300),
+                                        tols=(0, 1)), 150),
                 ("gen-stats-T4", consts({"pass", "ema", "ca"}, 4, {0, 1, 2}, durs=(0, 8), incls=(True, False),
-                                        tols=(0, 1)), 300)]
+                                        tols=(0, 1)), 150)]
         nparams = 4
     # the generation runs (one TLC worker each) overlap with the model-checking runs
     gen_pool = ThreadPoolExecutor(max_workers=4)
